@@ -322,6 +322,42 @@ pub fn generate(s: &mut Session, thorough: bool) -> bool {
             add_group(s, "valid-chunk-sizes", &cvs, &ords, Expect::Accept, &mut tag);
         }
     }
+    // (ii-b) the largest chunk counts a message can have: ids 0..=65534 and 0..=65535 (one-byte
+    // chunks, the rest of the message in the final chunk), in order and with the final chunk first.
+    // Implementation only (a 65 536-chunk request line would be megabytes for the model, whose
+    // totality for every list is theorem pwbFromChunkBytes_total): no panic in either build profile,
+    // and the reassembled packet equals the direct decode (seed C01-5 counted ids with a u16 range)
+    for n in [65535usize, 65536] {
+        let (dev, chip) = mac_dev_chip(&big);
+        let mut cvs: Vec<CV> = (0..n - 1)
+            .map(|i| CV { dev, chip, flags: 0, id: i as u16, payload: vec![big[i]] })
+            .collect();
+        cvs.push(CV { dev, chip, flags: 1, id: (n - 1) as u16, payload: big[n - 1..].to_vec() });
+        for last_first in [false, true] {
+            let mut chunks: Vec<Chunk> = Vec::with_capacity(n);
+            let mut bad = None;
+            for (k, cv) in cvs.iter().enumerate() {
+                tag = tag.wrapping_add(1);
+                match to_chunk(cv, tag) {
+                    Ok(c) => chunks.push(c),
+                    Err(e) => {
+                        bad = Some(format!("chunk {k} of the {n}-chunk message is not accepted by Chunk::try_from: {e}"));
+                        break;
+                    }
+                }
+            }
+            if last_first && bad.is_none() {
+                let l = chunks.pop().unwrap();
+                chunks.insert(0, l);
+            }
+            let (imp, why) = match bad {
+                Some(b) => ("err chunk".to_string(), Some(b)),
+                None => run_impl(chunks),
+            };
+            let digest = format!("{} {}", imp.split(' ').next().unwrap_or(""), imp.len());
+            s.push_oracle("max-chunk-count", format!("impl-only chunks {n} last_first={last_first} => {digest}"), digest.clone(), why);
+        }
+    }
     // (iii) every single fault x several orders
     let fault_bases: Vec<Vec<CV>> = {
         let mut v = Vec::new();
